@@ -168,10 +168,21 @@ def client_data_rules(chk, p, co, nm, ty_variant, target):
     json_term = None
     okh = False
     wit = "client_data_hash = %s" % (flow.term_str(h)[:200] if h else "?")
-    if h is not None and is_call(h, "Option::unwrap_or_else") and is_call(h[2][0], "ClientData::client_data_hash"):
-        r = closure_ret(p, h[2][1])
-        if r is not None:
-            sh = find(r, lambda x: is_call(x, "crypto::sha256") or is_call(x, "sha256"))
+    if h is not None:
+        # normal form: a selection on the presence of the caller-supplied hash — that hash when present, otherwise the
+        # SHA-256 of the serialised client data (`unwrap_or_else`, `match`, `if let` alike)
+        _N = normal.Normalizer(p, summary.Summaries(p))
+        hn = _N.norm(h)
+        sel, subj = flow.presence_selection(hn, lambda x: is_call(x, "ClientData::client_data_hash"))
+        if subj is not None and set(sel) == {True, False} and sel[True] == ("payload", subj):
+            r = sel[False]
+            sh = r if (is_call(r, "crypto::sha256") or is_call(r, "sha256")) else None
+            if sh is None and isinstance(r, tuple):
+                # the digest converted to a Vec (to_vec / into) is still the digest
+                inner = r
+                while isinstance(inner, tuple) and len(inner) == 4 and inner[0] == "call" and inner[2] and not (is_call(inner, "crypto::sha256") or is_call(inner, "sha256")) and any(names.is_(inner[1], s) for s in ("slice::to_vec", "Into::into", "From::from", "Vec::from", "array::as_slice", "ToOwned::to_owned")):
+                    inner = inner[2][0]
+                sh = inner if (is_call(inner, "crypto::sha256") or is_call(inner, "sha256")) else None
             if sh is not None:
                 json_term = sh[2][0]
                 okh = True
@@ -232,12 +243,12 @@ def run(chk):
     bb2, i2, rv2 = pk[0]
     c = {k: flow.simplify_term(T.operand(o, bb2, i2)) for k, o in zip(rv2["fields"], rv2["ops"])}
     site = where(reg, line=reg.blocks[bb]["stmts"][i]["line"])
-    cj = a["client_data_json"]
-    chk.ob("R1 client data", "R1|Client::register|returned-json-is-hashed-json", json_term is not None and cj == json_term and has(cj, lambda x: is_call(x, "serde_json::ser::to_string") or is_call(x, "to_string")), site,
+    cj = N_reg.norm(a["client_data_json"])
+    chk.ob("R1 client data", "R1|Client::register|returned-json-is-hashed-json", json_term is not None and cj == N_reg.norm(json_term) and has(cj, lambda x: is_call(x, "serde_json::ser::to_string") or is_call(x, "to_string")), site,
            "returned clientDataJSON = %s ; hashed = %s" % (flow.term_str(cj)[:120], flow.term_str(json_term)[:120] if json_term else "?"))
     # R2
     tv = [(b3, t) for b3, t in reg.calls() if names.call_is(t, "AuthenticatorData::to_vec")]
-    for b in p.nested(reg.path):
+    for b in p.nested_of(reg):
         if b is not reg:
             tv += [(b3, t) for b3, t in b.calls() if names.call_is(t, "AuthenticatorData::to_vec")]
     ad = a["authenticator_data"]
@@ -262,8 +273,9 @@ def run(chk):
                         same = True
     chk.ob("R2 authData twice", "R2|attestation-object-authData-same-value", same, site, "attestation object embeds to_vec of the same auth_data value: %s" % same)
     consts = set()
-    for b in p.nested(reg.path):
-        from .c01 import body_consts
+    from .c01 import body_consts
+    # (the view's own blocks — private helpers are inlined in it — and every closure constructed in them)
+    for b in p.nested_of(reg):
         body_consts(b, consts)
     need = {"fmt", "none", "attStmt", "authData"}
     chk.ob("R2 authData twice", "R2|attestation-object-keys", need <= consts, site, "constants used to build the attestation object: %s" % sorted(x for x in consts if x in need or x in ("packed", "None", "fido-u2f")))
@@ -379,7 +391,7 @@ def run(chk):
         is_find = lambda x: (is_call(x, "Iterator::find") or is_call(x, "slice::Iter::find")) and list_iter(x[2][0])
         is_next = lambda x: is_call(x, "Iterator::next") and list_iter(x[2][0])
         is_elem = lambda x: is_find(x) or is_next(x)
-        bad = [core.callee_of(t) for b in p.nested(ca.path) for bb3, t in b.calls() if names.call_is(t, *REV)]
+        bad = [core.callee_of(t) for b in p.nested_of(ca) for bb3, t in b.calls() if names.call_is(t, *REV)]
         oks = [o for o in rws if o.variant[:1] == ("Ok",)]
         errs = [o for o in rws if o.variant[:1] == ("Err",)]
 
